@@ -27,12 +27,12 @@ var c18Exempt = map[string]string{
 
 // families that InitGenesis rebuilds from another exported family.
 var c18Derived = map[string]string{
-	"dogfood:0x04": "OperatorOptOutFinishEpoch: reverse lookup rebuilt on import from the exported opt-out queue (0x03)",
-	"dogfood:0x0d": "UndelegationMaturityEpoch: reverse lookup rebuilt on import from the exported maturity queue (0x06)",
+	"dogfood:0x04":    "OperatorOptOutFinishEpoch: reverse lookup rebuilt on import from the exported opt-out queue (0x03)",
+	"dogfood:0x0d":    "UndelegationMaturityEpoch: reverse lookup rebuilt on import from the exported maturity queue (0x06)",
 	"delegation:0x04": "staker->record index: rebuilt on import by SetUndelegationRecords from the exported records (0x03)",
 	"delegation:0x05": "pending-by-height index: rebuilt on import by SetUndelegationRecords from the exported records (0x03)",
-	"operator:0x09": "chain->operator->key index: rebuilt on import from the exported operator->chain->key records (0x07)",
-	"operator:0x0a": "chain->consAddr->operator index: rebuilt on import from the exported operator->chain->key records (0x07)",
+	"operator:0x09":   "chain->operator->key index: rebuilt on import from the exported operator->chain->key records (0x07)",
+	"operator:0x0a":   "chain->consAddr->operator index: rebuilt on import from the exported operator->chain->key records (0x07)",
 }
 
 func sumOf(e *Effects, fns []*ssa.Function) map[string]bool {
